@@ -24,9 +24,11 @@ for d in sorted(Path("seeded").iterdir()):
     if meta.get("superseded"):
         status = "superseded (patch no longer applies: " + meta["superseded"].split(";")[0] + ")"
     elif meta.get("rebased"):
-        status += " (patch re-applied on " + meta["rebased"]["on"] + ")"
+        status += " (patch re-applied on " + str((meta["rebased"].get("on") or meta.get("base_commit", "?")) if isinstance(meta["rebased"], dict) else meta.get("base_commit", "?")) + ")"
     if meta.get("inert"):
         status += " — " + meta["inert"]
+    if meta.get("inert_since"):
+        status += " — inert since " + str(meta["inert_since"])
     rows.append((d.name, meta.get("summary", "see notes.md"), meta.get("needs", "see notes.md"), status))
 print("| seeded change | what it changes | needs, to manifest | checks |")
 print("|---|---|---|---|")
